@@ -612,7 +612,9 @@ def run_chunk(ctx, cases, wd, tag, judge, prejudge=None, coq_valid=False):
     base = os.path.join(wd, tag)
     os.makedirs(base, exist_ok=True)
     lines1 = [c.line(1) for c in cases]
-    impl = common.batch([ctx.hx, base], lines1, timeout=1200)
+    # every other chunk: the program also calls ovni_attr_flush() before each ovni_flush() (metadata only)
+    env = {"RTBUF_ATTR_FLUSH": "1"} if (tag[1:].isdigit() and int(tag[1:]) % 2 == 1) else None
+    impl = common.batch([ctx.hx, base], lines1, timeout=1200, env=env)
     vres = [None] * len(cases)
     if ctx.oracle:
         vl = []
